@@ -80,7 +80,15 @@ def build(job):
     one_r = t.prod("one", rname, lambda: ref.FQ12.one(), gt=True)
     gts = []
     nref = 0
+    # the trace decides EQUALITIES between registers: every pairing value e(b G2, a G1) is therefore produced a
+    # second time along an independent path - e(G2, G1)^(a b) by field exponentiation
+    g1_0 = t.prod("g1", oname, lambda: opt.G1, n=1)
+    g2_0 = t.prod("g2", oname, lambda: opt.G2, n=1)
+    gen_gt = t.prod("pair", oname, lambda: opt.pairing(t.R(g2_0), t.R(g1_0)), a=g2_0, b=g1_0, gt=True)
     for (a, b) in pairs:
+        if gen_gt and a % r and b % r:
+            k_ = a * b % r
+            t.prod("gtpow", oname, lambda: t.R(gen_gt) ** k_, a=gen_gt, n=k_, gt=True)
         # the same scalars through both modules
         po = t.prod("g1", oname, lambda: opt.multiply(opt.G1, a), n=a)
         qo = t.prod("g2", oname, lambda: opt.multiply(opt.G2, b), n=b)
